@@ -1293,7 +1293,10 @@ function cbuiltins.operators.shl(_, node, emitter, lattr, rattr, lname, rname)
   assert(ltype.is_integral and rtype.is_integral)
   if rattr.comptime and rattr.value >= 0 and rattr.value < ltype.bitsize then
     -- no overflow possible, can use plain C shift
-    if ltype.is_unsigned then
+    if ltype.is_unsigned and ltype.size < primtypes.cint.size then
+      -- C shifts in `int`: reduce the result to its type, it may be an operand of another operator
+      emitter:add('((', ltype, ')(', lname, ' << ', rname, '))')
+    elseif ltype.is_unsigned then
       emitter:add('(', lname, ' << ', rname, ')')
     else
       emitter:add('((',ltype,')((',ltype:unsigned_type(),')', lname, ' << ', rname, '))')
